@@ -1006,6 +1006,10 @@ defvjp_argnum(anp.array_from_args, array_from_args_gradmaker)
 def array_from_scalar_or_array_gradmaker(ans, array_args, array_kwargs, scarray):
     ndmin = array_kwargs.get("ndmin", 0)
     scarray_ndim = anp.ndim(scarray)
+    dtype = array_kwargs.get("dtype", array_args[0] if array_args else None)
+    if dtype is not None and not onp.issubdtype(onp.dtype(dtype), onp.inexact):
+        # a conversion to an integer or boolean type is piecewise constant
+        return lambda g: vspace(scarray).zeros()
     if ndmin > scarray_ndim:
         return lambda g: match_complex(scarray, anp.squeeze(g, axis=tuple(range(ndmin - scarray_ndim))))
     else:
